@@ -64,6 +64,25 @@ fn family_items(name: &str, fam: Vec<Pos>, depth: u32, out: &mut Vec<Item>) -> u
     n
 }
 
+/// Games replayed by `apply` alone in which ply number p is a double pawn step (its reply must
+/// clear the target) or a rook move that loses a castling right, for every p within 3 of the
+/// history lengths 256, 512, 1024 and 2048 (both kinds; a kind is skipped where it is not legal).
+fn special_long_games(items: &mut Vec<Item>) -> usize {
+    let start = Pos::startpos();
+    let mut n = 0;
+    for b in [256usize, 512, 1024, 2048] {
+        for p in b - 3..=b + 3 {
+            for kind in [0u8, 1] {
+                if let Some(pre) = preroll_game_special(&start, p + 6, Some((p, kind))) {
+                    items.push(Item { seed_name: format!("long-replay-special-k{}-p{}", kind, p), seed_fen: start.to_fen(), root: start.clone(), prefix: pre, remaining: 0 });
+                    n += 1;
+                }
+            }
+        }
+    }
+    n
+}
+
 fn plan(prop: &str, tier: &str) -> Plan {
     let thorough = tier == "thorough";
     let mut items = Vec::new();
@@ -134,6 +153,13 @@ fn plan(prop: &str, tier: &str) -> Plan {
             items.push(Item { seed_name: format!("long-game-ep-{}", len), seed_fen: eproot.to_fen(), root: eproot.clone(), prefix: preroll_game_from(&eproot, *len), remaining: tail });
             n += 1;
         }
+        // very long games that open with double steps (an en-passant target early in the history),
+        // unwound completely: history depths across 1024 and 2048
+        for len in [1300usize, 2300] {
+            items.push(Item { seed_name: format!("long-game-e4e5-{}", len), seed_fen: start.to_fen(), root: start.clone(), prefix: preroll_game_opening(&["e2e4", "e7e5"], len), remaining: 1 });
+            n += 1;
+        }
+        n += special_long_games(&mut items);
         fams.push(json!({"family": "trees at the end of long games, games unwound afterwards", "members": n, "game_lengths_from_start": lens, "game_lengths_from_ep_root": ep_lens, "ep_root": LONG_GAME_EP_ROOT, "tail_depth": tail, "merged_with_other_states": false}));
     }
     // C03 / C05: long games replayed with nothing but `apply` touching the board, compared with the
@@ -142,12 +168,13 @@ fn plan(prop: &str, tier: &str) -> Plan {
     if matches!(prop, "C03" | "C05") {
         let start = Pos::startpos();
         let mut n = 0;
-        for (nm, opening, len) in [("e4-e5", vec!["e2e4", "e7e5"], 600usize), ("nf3-d5-d4-c4", vec!["g1f3", "d7d5", "f3g1", "d5d4", "c2c4"], 600), ("plain", vec![], 300)] {
+        n += special_long_games(&mut items);
+        for (nm, opening, len) in [("e4-e5", vec!["e2e4", "e7e5"], 600usize), ("nf3-d5-d4-c4", vec!["g1f3", "d7d5", "f3g1", "d5d4", "c2c4"], 600), ("plain", vec![], 300), ("e4-e5", vec!["e2e4", "e7e5"], 1300), ("e4-e5", vec!["e2e4", "e7e5"], 2300)] {
             let pre = preroll_game_opening(&opening, len);
             items.push(Item { seed_name: format!("long-replay-{}-{}", nm, len), seed_fen: start.to_fen(), root: start.clone(), prefix: pre, remaining: 1 });
             n += 1;
         }
-        fams.push(json!({"family": "long games replayed by apply alone, compared with the model after every ply", "members": n, "lengths": [600, 600, 300]}));
+        fams.push(json!({"family": "long games replayed by apply alone, compared with the model after every ply", "members": n, "lengths": [600, 600, 300, 1300, 2300], "plus": "games in which ply p is a double step or a right-losing rook move, p within 3 of 256 / 512 / 1024 / 2048"}));
     }
     // C05: the key must not depend on the clocks either — roots pre-loaded with half-move clocks
     // around 100 and ply counts around 255 (the key is compared with a direct set-up at clock 0)
@@ -178,6 +205,16 @@ fn plan(prop: &str, tier: &str) -> Plan {
         let na = family_items("ep-only-reply", after, 0, &mut items);
         let nb = family_items("ep-only-reply(before the double step)", before, 0, &mut items);
         fams.push(json!({"family": "ep-only-reply (double step gives check, en passant is the only legal reply)", "members_after_the_step": na, "members_before_the_step": nb, "depth": 0, "complete": true, "material": "K+P+one piece against K+P"}));
+    }
+    // trees at the end of long games with an en-passant capture pending (ply counts beyond 255)
+    if matches!(prop, "C19" | "C01" | "C03") {
+        let eproot = Pos::from_fen(LONG_GAME_EP_ROOT).unwrap();
+        let mut n = 0;
+        for len in [253usize, 254, 255, 256, 300, 511, 512] {
+            items.push(Item { seed_name: format!("long-game-ep-{}", len), seed_fen: eproot.to_fen(), root: eproot.clone(), prefix: preroll_game_from(&eproot, len), remaining: 2 });
+            n += 1;
+        }
+        fams.push(json!({"family": "trees at the end of long games with an en-passant capture two plies away", "members": n, "lengths": [253, 254, 255, 256, 300, 511, 512]}));
     }
     // castle-shaped moves of rooks and queens (the text e8g8 is not always a castle)
     if matches!(prop, "C19" | "C01" | "C03") {
